@@ -13,13 +13,13 @@ type RWMutex struct {
 	mu sync.RWMutex
 }
 
-var lockNames sync.Map // *RWMutex -> name
+var lockNames sync.Map // *RWMutex | *Mutex -> name
 
 // NameLock gives a lock the name under which its scheduling points are reported
 // ("lock.<name>" for exclusive, "rlock.<name>" for shared acquisitions).
-func NameLock(m *RWMutex, name string) { lockNames.Store(m, name) }
+func NameLock(m any, name string) { lockNames.Store(m, name) }
 
-func lockName(m *RWMutex) string {
+func lockName(m any) string {
 	if n, ok := lockNames.Load(m); ok {
 		return n.(string)
 	}
@@ -58,4 +58,26 @@ func (m *RWMutex) RUnlock() {
 		h.LockNote(m, false, false)
 	}
 	m.mu.RUnlock()
+}
+
+// Mutex is sync.Mutex instrumented in the same way (every acquisition is an exclusive one).
+type Mutex struct {
+	mu sync.Mutex
+}
+
+func (m *Mutex) Lock() {
+	if h := installed.Load(); h != nil && h.LockYield != nil {
+		h.LockYield(m, lockName(m), true)
+	}
+	m.mu.Lock()
+	if h := installed.Load(); h != nil && h.LockNote != nil {
+		h.LockNote(m, true, true)
+	}
+}
+
+func (m *Mutex) Unlock() {
+	if h := installed.Load(); h != nil && h.LockNote != nil {
+		h.LockNote(m, true, false)
+	}
+	m.mu.Unlock()
 }
